@@ -32,11 +32,14 @@ Proof. exact exactly_once_nodup. Qed.
 Print Assumptions c20_exactly_once_nodup.
 
 (* Write stream (with the emptiness guard added to handleResponses): under the gRPC contract "a failed or
-   closed stream keeps failing sends", the i-th successful completion pairs the i-th successfully sent request
-   with the i-th response received, for every interleaving of sends, responses, receive errors and closure. *)
+   closed stream keeps failing sends", every successful completion hands a request the response that answers it:
+   request = the i-th successfully sent one, response = the i-th one received, for one and the same i -- for every
+   interleaving of sends, responses, receive errors, closure and per-request cancellations (a request whose caller
+   gave up while it was on the wire keeps its place: its future stays queued and swallows its own late response). *)
 Theorem c20_stream_fifo : forall evs s tr,
   sticky false evs -> stream_run true evs = (s, tr) ->
-  ok_dones tr = firstn (length (ok_dones tr)) (combine (ok_sends evs) (recv_payloads evs)).
+  forall f r, In (f, r) (ok_dones tr) ->
+    exists i, nth_error (ok_sends evs) i = Some f /\ nth_error (recv_payloads evs) i = Some r.
 Proof. exact stream_fifo. Qed.
 Print Assumptions c20_stream_fifo.
 
